@@ -22,18 +22,21 @@ def showState (d : State) : String :=
   s!"last={s.lastObserved} eth={s.lastEth} nonces={nonces} atts={aS} minted={s.minted}"
 
 /-- `endblock <powers> <total> [<nonce>:<hash>,… | -]`: the last field lists the attestations whose
-    observation event cannot be emitted in this block (collaborator fault) -/
+    observation event cannot be emitted in this block (collaborator fault). `<powers>` is the whole
+    `LastValidatorPower` table (bonded validators that never vote included) and `<total>` the stored
+    `LastTotalPower`; the model derives the total from the table (`totalOf`), a line whose total differs is
+    outside the model (`bad-op`). -/
 def endblock (d : State) (kind ps total faults : String) : State × String :=
   if kind != "endblock" && kind != "endblock50" then (d, "bad-op") else
   match parsePairList? ps, parseNat? total, parsePairList? faults with
   | some ps, some total, some fl =>
-    let s1 := tally d.s (powerOf ps) total (faultOf fl)
+    if total != totalOf ps then (d, "bad-op") else
+    let s1 := tally d.s (powerOf ps) (totalOf ps) (faultOf fl)
     let s2 := if kind == "endblock50" then catchUp s1 else s1
     let d' : State := { d with s := s2 }
     (d', showState d')
   | _, _, _ => (d, "bad-op")
 
-/-- amount carried by the harness' claims: not part of the oracle model; recomputed from effects -/
 def step (d : State) (args : List String) : State × String :=
   match args with
   | ["reset"] => (init, "ok")
